@@ -6,10 +6,16 @@
      Spec.C13 (atoms -> sections at depth-0 commas -> words at depth-0 whitespace -> word_case of each word alone);
    - partition layer: Python's negative-index slices / index / rindex are BibTeX's partition.
    The only things entering from outside are the two whitespace sets read from the running module
-   (Gen/Constants.v; the facts used about them are re-checked by vm_compute at every build). *)
+   (Gen/Constants.v; the facts used about them are re-checked by vm_compute at every build).
+
+   What "the case of a word" is: Spec.C13.word_case is the rule the LIBRARY implements (that is what C13_partition
+   proves).  It agrees with BibTeX's von_token_found on words without a backslash, on escapes at brace level 0 and on
+   the usual one-letter accents {\'E}x (all 149 cases of the repository's BibTeX-derived corpus), and it does NOT on the
+   five word classes of known finding K14: C13_word_case_refuted_K14 / C13_partition_refuted_K14 below, against the
+   literal transcription Spec/BibtexCase.v. *)
 From Coq Require Import List NArith ZArith Bool String.
 Local Open Scope string_scope.
-From BP Require Import Base.Chars Model.Blocks Gen.Constants Model.Names Spec.C13 Proofs.NamesPartProofs Proofs.NamesParseProofs Proofs.NamesTokProofs.
+From BP Require Import Base.Chars Model.Blocks Gen.Constants Model.Names Spec.C13 Spec.BibtexCase Proofs.BibtexCaseProofs Proofs.BibtexCaseAgree Proofs.NamesPartProofs Proofs.NamesParseProofs Proofs.NamesTokProofs.
 Import ListNotations.
 
 (* MAIN THEOREM: in strict mode (the default, and what SplitNameParts uses) the function IS the specification:
@@ -107,3 +113,31 @@ Proof.
     constructor; [intros _; exists [ex_s "Cc Dd"; ex_s "BB,"]; reflexivity|]. constructor.
   - vm_compute. reflexivity.
 Qed.
+
+(* ---- known finding K14: the word case is not BibTeX's where a special character or an escape is involved *)
+Theorem C13_word_case_refuted_K14 : exists w, lib_von w = true /\ von_token_found w = false.
+Proof. exact word_case_refuted. Qed.
+Print Assumptions C13_word_case_refuted_K14.
+
+(* `Bent {\O}rsted Hansen`: the library (by C13_partition: the model) makes the middle word the von part; for BibTeX
+   \O is an upper-case control word, the word is not a von token and belongs to First *)
+Theorem C13_partition_refuted_K14 : exists s p w,
+  parse_name true s = POk p /\ n_first p = [lit "Bent"] /\ n_von p = [w] /\ n_last p = [lit "Hansen"]
+  /\ von_token_found w = false.
+Proof. exact partition_refuted. Qed.
+Print Assumptions C13_partition_refuted_K14.
+
+(* ... and ONLY there: on words of ASCII characters (with the flags CPython gives them) that hold no backslash, the library's
+   word case is BibTeX's - any length, any brace nesting, balanced or not *)
+Theorem C13_word_case_agrees_without_backslash : forall w,
+  forallb ascii_canon w = true -> no_bs w = true -> lib_von w = von_token_found w.
+Proof. exact agree_no_backslash. Qed.
+Print Assumptions C13_word_case_agrees_without_backslash.
+
+(* one word per class D1..D5 of the finding with both verdicts; and a sample (a test, bounded) of forms that agree *)
+Example C13_K14_classes :
+  forallb (fun x => Bool.eqb (lib_von (fst x)) (fst (snd x)) && Bool.eqb (von_token_found (fst x)) (snd (snd x))
+                    && negb (Bool.eqb (lib_von (fst x)) (von_token_found (fst x)))) k14_words = true.
+Proof. exact k14_words_differ. Qed.
+Example C13_K14_agreement_sample : forallb (fun w => Bool.eqb (lib_von w) (von_token_found w)) agree_words = true.
+Proof. exact agree_sample. Qed.
